@@ -213,6 +213,10 @@ func (r *Recorder) eventFor(point string, s *scorch.Scorch, args []interface{}) 
 		return "MergeMarked", map[string]any{"new": args[0], "inputs": strs(args[1])}
 	case "merge.written":
 		return "MergeWritten", map[string]any{"new": args[0], "inputs": strs(args[1])}
+	case "merge.beforeIntro", "memmerge.beforeIntro":
+		// the full input list: the introducer consumes mergedSegHistory while it works
+		m := arg(0).(scorch.VerifMerge)
+		return "MergeRequest", map[string]any{"new": ints(m.NewIDs), "inputs": ints(m.Inputs), "task": intsI(m.InputTask), "filemerge": m.FileMerge}
 	case "merge.introduced":
 		m := arg(0).(scorch.VerifMerge)
 		return "MergeIntroduced", map[string]any{"new": ints(m.NewIDs), "skipped": bools(args[1])}
